@@ -109,6 +109,7 @@ struct Model
     std::vector<bool> prio_lt;        // separator before system[i] (i>=1): true '<', false ','
     std::string chan_priority;        // optional "chan priority a < b;" line (in system block)
     std::vector<MQuery> queries;
+    std::vector<MDecl> sys_decls;     // variables declared at the start of the <system> block (they join the globals)
     std::string system_raw;           // when non-empty: the complete text of the <system> block (faulted)
     bool omit_system{false};          // model fault: no <system> element (XTA: no instantiations and no system line)
     bool has_branchpoints() const;
@@ -165,6 +166,9 @@ struct XmlKnobs
                                         // tens of KB: libxml2 refills its input buffer several times inside one text node)
 };
 XmlKnobs draw_knobs(Rng& rng);
+/** renumbers the id attributes so that they are unique within each template only (every template counts from id0, in a
+ *  shuffled order): what pasting templates from several files produces; the reader warns and resolves refs per template */
+void localize_ids(Model&, Rng& rng);
 std::string knobs_str(const XmlKnobs&);
 
 /** label_paths (optional): receives the XPath of every label element that carries text, keyed "<kind>:<template>:<index>"
@@ -281,6 +285,9 @@ enum ModelFault {
     MF_NO_SYSTEM,        // no <system> element / no system line at all
     MF_EXTRA_INITIALISER,  // a struct variable initialised with more elements than the struct has fields
     MF_FUNC_NO_RETURN,   // a non-void function that lost its final return statement
+    MF_URGENT_AND_COMMITTED,  // a location flagged both urgent and committed (diagnosed; the first flag in document order stays)
+    MF_DYNAMIC_PARAM_MISMATCH,  // a dynamic template declared with another parameter list than its definition has
+    MF_RANDOM_INIT,      // "double zrnd = random(5);": a random built-in where a compile-time value is demanded
     MF_COUNT
 };
 const char* model_fault_name(int);
